@@ -28,6 +28,9 @@ Definition LPAR : N := 40%N.
 Definition RPAR : N := 41%N.
 Definition SEMI : N := 59%N.
 
+(* str.endswith *)
+Definition suffixb (p s : str) : bool := prefixb (rev p) (rev s).
+
 Definition nonempty (s : str) : bool := match s with [] => false | _ => true end.
 Definition truthy_o (o : option str) : bool := match o with Some (_ :: _) => true | _ => false end.
 (* x or None *)
@@ -469,7 +472,13 @@ Section Pipe.
     match glookup g_page (t_groups t) with
     | None => Err KeyErr
     | Some prefix =>
-        do r <- extract_pin_cite words i (ze t) prefix ;;
+        (* (as repaired) the page is used as the prefix of the pin-cite window only when the token
+           really ends with it:  if page is not None and not str(cite_token).endswith(page): page = "" *)
+        let prefix' := match prefix with
+                       | Some pg => if suffixb pg (t_data t) then Some pg else Some []
+                       | None => None
+                       end in
+        do r <- extract_pin_cite words i (ze t) prefix' ;;
         let '(pin, span_end, par) := r in
         let se := match span_end with Some x => if Z.eqb x 0 then 0 else x | None => 0 end in
         let c := blank CShort t i in
